@@ -2,7 +2,7 @@
    its field validators are (compositional step used by derive_sound_all). *)
 From Coq Require Import ZArith List Bool Lia.
 From KV Require Import Base.PyVal Base.Prims Model.Validator Model.Sem Model.Derive
-     Proofs.Scalar Proofs.Calls Proofs.Records Proofs.EqP Proofs.DeriveP.
+     Proofs.Scalar Proofs.Calls Proofs.Collections Proofs.Wrappers Proofs.Records Proofs.EqP Proofs.DeriveP.
 Import ListNotations.
 
 Definition is_vstr (v : pyval) : bool := match v with VStr _ => true | _ => false end.
@@ -300,3 +300,404 @@ Section All.
     forall fuel x w, run E Sync fuel v x = OValid w -> has_type a w = true.
   Proof. apply (derive_sound E oracle_typed (okann E) (okann_children E) record_step). Qed.
 End All.
+
+(* ---------- signature mode, record classes included ---------- *)
+
+(* values as Python builds them: an instance has exactly its class's fields, in order *)
+Fixpoint inst_ok (E : env) (x : pyval) : bool :=
+  match x with
+  | VList xs | VTuple xs | VSet xs => forallb (inst_ok E) xs
+  | VDict kvs => forallb (fun kv => inst_ok E (fst kv) && inst_ok E (snd kv)) kvs
+  | VJust y => inst_ok E y
+  | VObj c fs => list_eqb pyval_eqb (map fst fs) (map fst (cfields E c)) && forallb (fun kv => inst_ok E (snd kv)) fs
+  | _ => true
+  end.
+
+(* annotations of the strictness theorem: no user validator; record nodes are dataclasses or
+   NamedTuples (a TypedDict value may carry undeclared keys, which the validator drops) *)
+Fixpoint okstrict (E : env) (a : ann) : bool :=
+  match a with
+  | AList x | ASet x | ATupleU x | AMaybe x | AQual x => okstrict E x
+  | ADict k v => okstrict E k && okstrict E v
+  | ATupleN l | AUnion l => forallb (okstrict E) l
+  | AAnnotated x None => okstrict E x
+  | AAnnotated _ (Some _) => false
+  | ARecord rk c fields =>
+      match rk with RkTyped => false | _ => true end &&
+      node_ok E rk c fields && forallb (fun f => okstrict E (fst (snd f))) fields
+  | _ => true
+  end.
+
+Section RecStrict.
+  Variable E : env.
+  Variable rec : runner.
+
+  Lemma py_eq_str_neq k k' : is_vstr k = true -> k <> k' -> py_eq k k' = false.
+  Proof.
+    intros Hk Hne. destruct (py_eq k k') eqn:Eq; [|reflexivity]. exfalso. apply Hne. apply (py_eq_str_eq _ _ Hk Eq).
+  Qed.
+
+  Lemma dict_get_unique : forall (l : list (pyval * pyval)) k x,
+      In (k, x) l -> forallb (fun kv => is_vstr (fst kv)) l = true -> names_nodup (map fst l) = true ->
+      dict_get l k = Some x.
+  Proof.
+    induction l as [|[k0 x0] l IH]; intros k x Hin Hs Hn; [destruct Hin|].
+    cbn [forallb fst] in Hs. apply andb_prop in Hs. destruct Hs as [Hk0 Hs].
+    cbn [map fst names_nodup] in Hn. apply andb_prop in Hn. destruct Hn as [Hh Hn]. cbn [dict_get].
+    destruct Hin as [Hin|Hin].
+    - inversion Hin; subst. rewrite (py_eq_str_refl _ Hk0). reflexivity.
+    - assert (Hne : k0 <> k).
+      { intros ->. apply negb_true_iff in Hh. assert (Ht : existsb (pyval_eqb k) (map fst l) = true).
+        { apply existsb_exists. exists k. split; [apply (in_map fst _ _ Hin) | apply pyval_eqb_refl]. }
+        congruence. }
+      rewrite (py_eq_str_neq _ _ Hk0 Hne). apply IH; assumption.
+  Qed.
+
+  Lemma payload_src schema data : forall k w,
+      In (k, w) (key_payload_of rec AbsOmit schema data) ->
+      exists v r xv, In (k, (v, r)) schema /\ dict_get data k = Some xv /\ rec v xv = OValid w.
+  Proof.
+    induction schema as [|[k0 [v0 r0]] schema IH]; intros k w Hin; cbn [key_payload_of] in Hin; [destruct Hin|].
+    cbv zeta in Hin.
+    assert (Hrest : In (k, w) (key_payload_of rec AbsOmit schema data) ->
+                    exists v r xv, In (k, (v, r)) ((k0, (v0, r0)) :: schema) /\ dict_get data k = Some xv /\ rec v xv = OValid w).
+    { intros H. destruct (IH k w H) as [v [r [xv [H1 H2]]]]. exists v, r, xv. split; [right; exact H1 | exact H2]. }
+    destruct (dict_get data k0) as [xv|] eqn:Eg.
+    - destruct (rec v0 xv) as [w0| | | |] eqn:Er; try (apply Hrest; exact Hin).
+      destruct Hin as [Hin|Hin]; [|apply Hrest; exact Hin]. inversion Hin; subst.
+      exists v0, r0, xv. split; [left; reflexivity | split; assumption].
+    - destruct r0; apply Hrest; exact Hin.
+  Qed.
+
+  Lemma payload_in schema data : forall k v r xv w,
+      In (k, (v, r)) schema -> dict_get data k = Some xv -> rec v xv = OValid w ->
+      In (k, w) (key_payload_of rec AbsOmit schema data).
+  Proof.
+    induction schema as [|[k0 [v0 r0]] schema IH]; intros k v r xv w Hin Hg Hr; [destruct Hin|].
+    cbn [key_payload_of]. cbv zeta. destruct Hin as [Hin|Hin].
+    - inversion Hin; subst. rewrite Hg, Hr. left; reflexivity.
+    - pose proof (IH k v r xv w Hin Hg Hr) as Hi.
+      destruct (dict_get data k0); [destruct (rec v0 p); try exact Hi; right; exact Hi | destruct r0; exact Hi].
+  Qed.
+
+  Lemma schema_unique (schema : list (pyval * (validator * bool))) k v r v' r' :
+    names_nodup (map fst schema) = true -> In (k, (v, r)) schema -> In (k, (v', r')) schema -> v = v' /\ r = r'.
+  Proof.
+    induction schema as [|[k0 [v0 r0]] schema IH]; intros Hn H1 H2; [destruct H1|].
+    cbn [map fst names_nodup] in Hn. apply andb_prop in Hn. destruct Hn as [Hh Hn].
+    assert (Hno : forall a1 r1, In (k0, (a1, r1)) schema -> False).
+    { intros a1 r1 Hin. apply negb_true_iff in Hh. assert (Ht : existsb (pyval_eqb k0) (map fst schema) = true).
+      { apply existsb_exists. exists k0. split; [apply (in_map fst _ _ Hin) | apply pyval_eqb_refl]. }
+      congruence. }
+    destruct H1 as [H1|H1], H2 as [H2|H2].
+    - inversion H1; inversion H2; subst. split; reflexivity.
+    - inversion H1; subst. destruct (Hno _ _ H2).
+    - inversion H2; subst. destruct (Hno _ _ H1).
+    - apply (IH Hn H1 H2).
+  Qed.
+
+  (* a present, normal, non-failing key is a valid one *)
+  Lemma present_valid self schema data orig k v r xv :
+    present_normal rec schema data -> key_errs_of rec self schema data orig = [] ->
+    In (k, (v, r)) schema -> dict_get data k = Some xv -> exists w, rec v xv = OValid w.
+  Proof.
+    intros Hn He Hin Hg. apply key_errs_nil in He. unfold present_normal in Hn.
+    rewrite Forall_forall in Hn, He. specialize (Hn _ Hin). specialize (He _ Hin). cbn [fst snd] in *.
+    rewrite Hg in Hn, He. destruct (rec v xv) as [w| i | | |]; try discriminate; [eexists; reflexivity|].
+    exfalso. apply (He i). reflexivity.
+  Qed.
+
+  Lemma go_typed2 : forall (fl : list (pyval * (ann * bool))) (fsl : list (pyval * pyval)),
+      map fst fsl = map fst fl ->
+      (forall k a r xv, In (k, (a, r)) fl -> In (k, xv) fsl -> has_type a xv = true) ->
+      (fix go (fields0 : list (pyval * (ann * bool))) (fs0 : list (pyval * pyval)) : bool :=
+         match fields0, fs0 with
+         | [], [] => true
+         | (k, (a1, _)) :: fr, (k', v) :: kr => pyval_eqb k k' && has_type a1 v && go fr kr
+         | _, _ => false
+         end) fl fsl = true.
+  Proof.
+    induction fl as [|[k [a r]] fl IH]; intros fsl Hk Hv; destruct fsl as [|[k' xv] fsl]; try discriminate; [reflexivity|].
+    cbn [map fst] in Hk. injection Hk as Hk0 Hk. subst k'.
+    rewrite pyval_eqb_refl, (Hv k a r xv (or_introl eq_refl) (or_introl eq_refl)). cbn [andb].
+    apply IH; [exact Hk|]. intros k1 a1 r1 x1 H1 H2. apply (Hv k1 a1 r1 x1); right; assumption.
+  Qed.
+
+  Lemma map_keys_values {A} (g : pyval * A -> pyval) : forall (cf : list (pyval * A)) (fs : list (pyval * pyval)),
+      map fst cf = map fst fs -> (forall fd x, In fd cf -> In (fst fd, x) fs -> g fd = x) ->
+      map (fun fd => (fst fd, g fd)) cf = fs.
+  Proof.
+    induction cf as [|[k d] cf IH]; intros fs Hk Hg; destruct fs as [|[k' x] fs]; try discriminate; [reflexivity|].
+    cbn [map fst] in *. injection Hk as Hk0 Hk. subst k'. rewrite (Hg (k, d) x (or_introl eq_refl) (or_introl eq_refl)).
+    f_equal. apply IH; [exact Hk|]. intros fd x1 H1 H2. apply Hg; right; assumption.
+  Qed.
+
+  Lemma fields_schema_rel (fields : list (pyval * (ann * bool))) (schema : list (pyval * (validator * bool))) :
+    map fst schema = map fst fields ->
+    map (fun e => snd (snd e)) schema = map (fun e => snd (snd e)) fields ->
+    Forall2 (fun e s => derive true (fst (snd e)) = Ok (fst (snd s))) fields schema ->
+    Forall2 (fun e s => fst e = fst s /\ snd (snd e) = snd (snd s) /\ derive true (fst (snd e)) = Ok (fst (snd s))) fields schema.
+  Proof.
+    intros Hk Hr HF. revert Hk Hr. induction HF as [|e s fields schema Hd HF IH]; intros Hk Hr; [constructor|].
+    cbn [map] in Hk, Hr. injection Hk as Hk0 Hk. injection Hr as Hr0 Hr.
+    constructor; [repeat split; congruence | apply IH; assumption].
+  Qed.
+End RecStrict.
+
+Section StrictAll.
+  Variable E : env.
+
+  Definition strict2 (a : ann) : Prop :=
+    okstrict E a = true -> forall v, derive true a = Ok v ->
+    forall fuel x w, run E Sync fuel v x = OValid w -> inst_ok E x = true ->
+                     has_type a x = true /\ (proper x = true -> w = x).
+
+  Lemma children_strict2 n item a xs ws :
+    (forall xi w, run E Sync n item xi = OValid w -> inst_ok E xi = true ->
+                  has_type a xi = true /\ (proper xi = true -> w = xi)) ->
+    Forall2 (fun xi w => run E Sync n item xi = OValid w) xs ws -> forallb (inst_ok E) xs = true ->
+    forallb (has_type a) xs = true /\ (forallb proper xs = true -> ws = xs).
+  Proof.
+    intros IH HF. induction HF as [|xi wi xs ws Hh HF IHF]; intros Hi; [split; reflexivity|].
+    cbn [forallb] in Hi. apply andb_prop in Hi. destruct Hi as [Hi0 Hi1].
+    destruct (IH xi wi Hh Hi0) as [H1 H2]. destruct (IHF Hi1) as [I1 I2]. cbn [forallb]. rewrite H1, I1. split; [reflexivity|].
+    intros Hp. apply andb_prop in Hp. destruct Hp as [P1 P2]. rewrite (H2 P1), (I2 P2). reflexivity.
+  Qed.
+
+  (* the record step: a dataclass / NamedTuple annotation in signature mode *)
+  Lemma record_strict rk c fields :
+    Forall (fun f => strict2 (fst (snd f))) fields -> strict2 (ARecord rk c fields).
+  Proof.
+    intros HI Hp vd Hd fuel x w Hr Hw. cbn [okstrict] in Hp.
+    apply andb_prop in Hp. destruct Hp as [Hp Hfs]. apply andb_prop in Hp. destruct Hp as [Hrk Hnode].
+    assert (Hnt : rk <> RkTyped) by (destruct rk; try discriminate; congruence).
+    destruct (derive_record true rk c fields vd Hd) as [schema [-> [Hk [Hreq HF]]]].
+    destruct fuel as [|n]; [discriminate|]. cbn [run step] in Hr. apply class_accept in Hr.
+    destruct Hr as [_ [y [data [Hg [Hd' [_ [Hn [He Hobj]]]]]]]]. unfold obj_stage in Hobj.
+    assert (Hx : exists fs, x = VObj c fs /\ y = VDict fs).
+    { unfold class_gate, record_co in Hg. destruct rk; try congruence; cbn [coerce_apply] in Hg;
+        destruct x; try discriminate;
+          (destruct (Nat.eqb c c0) eqn:Ec; [|discriminate]; apply Nat.eqb_eq in Ec; subst c0;
+           injection Hg as <-; eexists; split; reflexivity). }
+    destruct Hx as [fs [-> ->]]. cbn [as_dict unsub] in Hd'. injection Hd' as <-.
+    cbn [inst_ok] in Hw. apply andb_prop in Hw. destruct Hw as [Hshape Hwf].
+    apply (Proofs.EqbSound.list_eqb_sound pyval_eqb) in Hshape; [|intros; apply Proofs.EqbSound.pyval_eqb_sound; assumption].
+    pose proof Hnode as Hnode'. unfold node_ok in Hnode'.
+    apply andb_prop in Hnode'. destruct Hnode' as [Hn1 Hcls]. apply andb_prop in Hn1. destruct Hn1 as [Hstr Hnd].
+    assert (Hnames : map fst (cfields E c) = map fst fields).
+    { destruct rk; try congruence; apply andb_prop in Hcls; destruct Hcls as [Hc _];
+        apply (Proofs.EqbSound.list_eqb_sound pyval_eqb) in Hc; auto; intros; apply Proofs.EqbSound.pyval_eqb_sound; assumption. }
+    assert (Hfsn : map fst fs = map fst fields) by congruence.
+    assert (Hfs_str : forallb (fun kv : pyval * pyval => is_vstr (fst kv)) fs = true).
+    { apply forallb_forall. intros [k xv] Hin. cbn [fst].
+      assert (Hin' : In k (map fst fields)) by (rewrite <- Hfsn; apply (in_map fst _ _ Hin)).
+      apply in_map_iff in Hin'. destruct Hin' as [f [<- Hf]]. rewrite forallb_forall in Hstr. apply (Hstr _ Hf). }
+    assert (Hfs_nd : names_nodup (map fst fs) = true) by (rewrite Hfsn; exact Hnd).
+    assert (Hsch_nd : names_nodup (map fst schema) = true) by (rewrite Hk; exact Hnd).
+    (* every member: accepted, typed, unchanged *)
+    assert (Hmember : forall k xv, In (k, xv) fs ->
+               exists a r v w0, In (k, (a, r)) fields /\ In (k, (v, r)) schema /\ run E Sync n v xv = OValid w0 /\
+                                has_type a xv = true /\ (proper xv = true -> w0 = xv)).
+    { intros k xv Hin.
+      assert (Hkin : In k (map fst fields)) by (rewrite <- Hfsn; apply (in_map fst _ _ Hin)).
+      (* the field and the schema entry of that name *)
+      assert (Hpair : exists a r v, In (k, (a, r)) fields /\ In (k, (v, r)) schema /\ derive true a = Ok v /\ strict2 a /\ okstrict E a = true).
+      { pose proof (fields_schema_rel fields schema Hk Hreq HF) as HR.
+        clear - HR HI Hfs Hkin. induction HR as [|[kf [a rf]] [ks [v rs]] fields schema [H1 [H2 H3]] HR IH]; [destruct Hkin|].
+        inversion HI as [|? ? HIa HIl]; subst. cbn [forallb fst snd] in *. apply andb_prop in Hfs. destruct Hfs as [Hfa Hfl].
+        subst ks rs. cbn [map fst] in Hkin. destruct Hkin as [<-|Hkin].
+        - exists a, rf, v. split; [left; reflexivity|]. split; [left; reflexivity|]. split; [exact H3|]. split; [exact HIa | exact Hfa].
+        - destruct (IH HIl Hfl Hkin) as [a0 [r0 [v0 [G1 [G2 G3]]]]]. exists a0, r0, v0. split; [right; exact G1|]. split; [right; exact G2 | exact G3]. }
+      destruct Hpair as [a [r [v [Hf [Hs [Hdv [Hst Hok]]]]]]].
+      pose proof (dict_get_unique fs k xv Hin Hfs_str Hfs_nd) as Hget.
+      destruct (present_valid (run E Sync n) _ schema fs (VDict fs) k v r xv Hn He Hs Hget) as [w0 Hw0].
+      assert (Hixv : inst_ok E xv = true) by (rewrite forallb_forall in Hwf; apply (Hwf _ Hin)).
+      destruct (Hst Hok v Hdv n xv w0 Hw0 Hixv) as [T P].
+      exists a, r, v, w0. repeat split; assumption. }
+    split.
+    - (* typed *)
+      cbn [has_type]. assert (Hgo := go_typed2 fields fs Hfsn).
+      destruct rk; try congruence; rewrite Nat.eqb_refl; cbn [andb]; apply Hgo;
+        intros k a r xv Hf Hin; destruct (Hmember k xv Hin) as [a' [r' [v' [w' [Hf' [_ [_ [T _]]]]]]]];
+          destruct (names_nodup_unique fields _ _ _ _ _ Hnd Hf Hf') as [-> _]; exact T.
+    - (* unchanged *)
+      intros Hpr. cbn [proper] in Hpr.
+      assert (Hw : w = construct E c (key_payload_of (run E Sync n) AbsOmit schema fs))
+        by (destruct rk; try congruence; injection Hobj as <-; reflexivity).
+      rewrite Hw. unfold construct. f_equal.
+      apply (map_keys_values (fun fd : pyval * option pyval =>
+                                match dict_get (key_payload_of (run E Sync n) AbsOmit schema fs) (fst fd) with
+                                | Some v => v
+                                | None => match snd fd with Some d => d | None => VNone end
+                                end) (cfields E c) fs (eq_sym Hshape)).
+      intros fd xv Hfd Hin.
+      destruct (Hmember _ xv Hin) as [a [r [v [w0 [Hf [Hs [Hw0 [_ Pid]]]]]]]].
+      assert (Hpx : proper xv = true) by (rewrite forallb_forall in Hpr; apply (Hpr _ Hin)).
+      rewrite (Pid Hpx) in Hw0.
+      assert (Hks : is_vstr (fst fd) = true) by (rewrite forallb_forall in Hfs_str; apply (Hfs_str _ Hin)).
+      pose proof (dict_get_unique fs _ xv Hin Hfs_str Hfs_nd) as Hget.
+      pose proof (payload_in (run E Sync n) schema fs _ v r xv xv Hs Hget Hw0) as Hpin.
+      pose proof (dict_has_in _ _ _ Hpin (py_eq_str_refl _ Hks)) as Hhas. unfold dict_has in Hhas.
+      destruct (dict_get (key_payload_of (run E Sync n) AbsOmit schema fs) (fst fd)) as [v'|] eqn:Egp; [|discriminate].
+      destruct (dict_get_in _ _ _ Egp) as [k' [Hin' Hk']].
+      destruct (payload_src (run E Sync n) schema fs k' v' Hin') as [v2 [r2 [xv2 [Hs2 [Hg2 Hr2]]]]].
+      assert (Hk's : is_vstr k' = true).
+      { assert (Hin2 : In k' (map fst fields)) by (rewrite <- Hk; apply (in_map fst _ _ Hs2)).
+        apply in_map_iff in Hin2. destruct Hin2 as [f [<- Hf2]]. rewrite forallb_forall in Hstr. apply (Hstr _ Hf2). }
+      apply (py_eq_str_eq _ _ Hk's) in Hk'. subst k'.
+      destruct (schema_unique schema _ _ _ _ _ Hsch_nd Hs Hs2) as [<- _].
+      rewrite Hget in Hg2. injection Hg2 as <-. rewrite Hw0 in Hr2. injection Hr2 as <-. reflexivity.
+  Qed.
+
+  Lemma okstrict_children a : okstrict E a = true ->
+    match a with
+    | AList x | ASet x | ATupleU x | AMaybe x | AQual x => okstrict E x = true
+    | ADict k v => okstrict E k = true /\ okstrict E v = true
+    | ATupleN l | AUnion l => forallb (okstrict E) l = true
+    | AAnnotated _ (Some _) => False
+    | _ => True
+    end.
+  Proof.
+    destruct a; cbn [okstrict]; intros H; auto.
+    - apply andb_prop in H. exact H.
+    - destruct v; [discriminate | exact I].
+  Qed.
+
+  Theorem derive_strict_all : forall a, strict2 a.
+  Proof.
+    induction a using ann_ind'; unfold strict2 in *; intros Hp vd Hd fuel x w Hr Hw;
+      try (apply (record_strict rk c fields H Hp vd Hd fuel x w Hr Hw));
+      (destruct fuel as [|n]; [discriminate|]); cbn [run] in Hr; cbn [derive] in Hd.
+    - (* AScalar *)
+      destruct k; try discriminate; injection Hd as <-; cbn [step] in Hr; apply scalar_accept in Hr;
+        destruct Hr as [_ [y [Hg [Hpr _]]]]; cbn [procs_apply] in Hpr; injection Hpr as <-;
+          unfold gate, default_co in Hg; cbn [ktype] in Hg;
+            match type of Hg with (if ?b then _ else _) = _ => destruct b eqn:Ex; [|discriminate] end;
+            injection Hg as <-; (split; [|reflexivity]); destruct x; cbn in Ex; try discriminate; reflexivity.
+    - (* ANone *) injection Hd as <-. cbn [step] in Hr. unfold none_body in Hr.
+      destruct x; try discriminate. injection Hr as <-. split; reflexivity.
+    - (* AAny *) injection Hd as <-. cbn [step] in Hr. injection Hr as <-. split; reflexivity.
+    - (* ANakedList *) injection Hd as <-. cbn [step] in Hr.
+      apply (seq_none E TList TList VList n _ _ _ _ VList_inj') in Hr. destruct Hr as [Ex [xs [ws [Hit [HF ->]]]]].
+      destruct (exact_list x Ex) as [xs' ->]. cbn in Hit. injection Hit as <-.
+      rewrite (always_valid_children E n _ _ HF). split; reflexivity.
+    - (* ANakedSet *) injection Hd as <-. cbn [step] in Hr. apply set_accept in Hr.
+      destruct Hr as [_ [y [xs [ws [Hg [_ [Hit [HF [_ ->]]]]]]]]]. unfold gate in Hg.
+      destruct (exact_type x TSet) eqn:Ex; [|discriminate]. injection Hg as <-.
+      destruct (exact_set x Ex) as [xs' ->]. cbn in Hit. injection Hit as <-.
+      rewrite (always_valid_children E n _ _ HF). split; [reflexivity|].
+      cbn [proper]. intros Hp'. apply andb_prop in Hp'. destruct Hp' as [_ Hdd].
+      unfold set_payload. rewrite set_payload_distinct by exact Hdd. reflexivity.
+    - (* ANakedTuple *) injection Hd as <-. cbn [step tuple_co] in Hr.
+      apply (seq_none E TTuple TList VTuple n _ _ _ _ VTuple_inj') in Hr. destruct Hr as [Ex [xs [ws [Hit [HF ->]]]]].
+      destruct (exact_tuple x Ex) as [xs' ->]. cbn in Hit. injection Hit as <-.
+      rewrite (always_valid_children E n _ _ HF). split; reflexivity.
+    - (* ANakedDict *) injection Hd as <-. cbn [step] in Hr. apply map_accept in Hr.
+      destruct Hr as [_ [y [kvs [pairs [Hg [_ [Hdd [HF [_ ->]]]]]]]]]. unfold gate in Hg.
+      destruct (exact_type x TDict) eqn:Ex; [|discriminate]. injection Hg as <-.
+      destruct (exact_dict x Ex) as [kvs' ->]. cbn in Hdd. injection Hdd as <-.
+      assert (Hpairs : pairs = kvs').
+      { clear - HF. induction HF as [|p q ps qs [H1 H2] HF IH]; [reflexivity|].
+        destruct n; [discriminate|]. cbn in H1, H2. destruct p, q. cbn [fst snd] in *.
+        injection H1 as <-. injection H2 as <-. rewrite IH. reflexivity. }
+      subst pairs. split; [reflexivity|]. cbn [proper]. intros Hp'. apply andb_prop in Hp'. destruct Hp' as [_ Hdd].
+      unfold map_payload. rewrite map_payload_distinct by exact Hdd. reflexivity.
+    - (* AList *) apply okstrict_children in Hp. destruct (derive true a) as [v'|e] eqn:Ea; cbn [pbind] in Hd; [|discriminate].
+      injection Hd as <-. cbn [step] in Hr.
+      apply (seq_none E TList TList VList n _ _ _ _ VList_inj') in Hr. destruct Hr as [Ex [xs [ws [Hit [HF ->]]]]].
+      destruct (exact_list x Ex) as [xs' ->]. cbn in Hit. injection Hit as <-. cbn [inst_ok] in Hw.
+      destruct (children_strict2 n v' a xs' ws (fun xi wi Hi Hix => IHa Hp v' eq_refl n xi wi Hi Hix) HF Hw) as [H1 H2].
+      split; [exact H1|]. cbn [proper]. intros Hp'. rewrite (H2 Hp'). reflexivity.
+    - (* ASet *) apply okstrict_children in Hp. destruct (derive true a) as [v'|e] eqn:Ea; cbn [pbind] in Hd; [|discriminate].
+      injection Hd as <-. cbn [step] in Hr. apply set_accept in Hr.
+      destruct Hr as [_ [y [xs [ws [Hg [_ [Hit [HF [_ ->]]]]]]]]]. unfold gate in Hg.
+      destruct (exact_type x TSet) eqn:Ex; [|discriminate]. injection Hg as <-.
+      destruct (exact_set x Ex) as [xs' ->]. cbn in Hit. injection Hit as <-. cbn [inst_ok] in Hw.
+      destruct (children_strict2 n v' a xs' ws (fun xi wi Hi Hix => IHa Hp v' eq_refl n xi wi Hi Hix) HF Hw) as [H1 H2].
+      split; [exact H1|]. cbn [proper]. intros Hp'. apply andb_prop in Hp'. destruct Hp' as [Hp1 Hdd].
+      rewrite (H2 Hp1). unfold set_payload. rewrite set_payload_distinct by exact Hdd. reflexivity.
+    - (* ADict *) apply okstrict_children in Hp. destruct Hp as [Hpk Hpv].
+      destruct (derive true a1) as [kv|e] eqn:Ek; cbn [pbind] in Hd; [|discriminate].
+      destruct (derive true a2) as [vv|e] eqn:Ev; cbn [pbind] in Hd; [|discriminate].
+      injection Hd as <-. cbn [step] in Hr. apply map_accept in Hr.
+      destruct Hr as [_ [y [kvs [pairs [Hg [_ [Hdd [HF [_ ->]]]]]]]]]. unfold gate in Hg.
+      destruct (exact_type x TDict) eqn:Ex; [|discriminate]. injection Hg as <-.
+      destruct (exact_dict x Ex) as [kvs' ->]. cbn in Hdd. injection Hdd as <-. cbn [inst_ok] in Hw.
+      assert (Hall : forallb (fun kv => has_type a1 (fst kv) && has_type a2 (snd kv)) kvs' = true /\
+                     (forallb (fun kv => proper (fst kv) && proper (snd kv)) kvs' = true -> pairs = kvs')).
+      { clear - HF IHa1 IHa2 Hpk Hpv Hw. induction HF as [|p q ps qs [H1 H2] HF IHF]; [split; reflexivity|].
+        cbn [forallb] in Hw. apply andb_prop in Hw. destruct Hw as [Hw0 Hw1]. apply andb_prop in Hw0. destruct Hw0 as [Hwk Hwv].
+        destruct (IHa1 Hpk kv eq_refl n _ _ H1 Hwk) as [T1 P1]. destruct (IHa2 Hpv vv eq_refl n _ _ H2 Hwv) as [T2 P2].
+        destruct (IHF Hw1) as [I1 I2].
+        cbn [forallb]. rewrite T1, T2, I1. split; [reflexivity|]. intros Hp. apply andb_prop in Hp. destruct Hp as [Hp Hps].
+        apply andb_prop in Hp. destruct Hp as [Q1 Q2]. destruct p, q. cbn [fst snd] in *.
+        rewrite (P1 Q1), (P2 Q2), (I2 Hps). reflexivity. }
+      destruct Hall as [H1 H2]. split; [exact H1|]. cbn [proper]. intros Hp'. apply andb_prop in Hp'. destruct Hp' as [Hp1 Hdd].
+      rewrite (H2 Hp1). unfold map_payload. rewrite map_payload_distinct by exact Hdd. reflexivity.
+    - (* ATupleU *) apply okstrict_children in Hp. destruct (derive true a) as [v'|e] eqn:Ea; cbn [pbind] in Hd; [|discriminate].
+      injection Hd as <-. cbn [step tuple_co] in Hr.
+      apply (seq_none E TTuple TList VTuple n _ _ _ _ VTuple_inj') in Hr. destruct Hr as [Ex [xs [ws [Hit [HF ->]]]]].
+      destruct (exact_tuple x Ex) as [xs' ->]. cbn in Hit. injection Hit as <-. cbn [inst_ok] in Hw.
+      destruct (children_strict2 n v' a xs' ws (fun xi wi Hi Hix => IHa Hp v' eq_refl n xi wi Hi Hix) HF Hw) as [H1 H2].
+      split; [exact H1|]. cbn [proper]. intros Hp'. rewrite (H2 Hp'). reflexivity.
+    - (* ATupleN *)
+      change (pbind (many_of (derive true) l) (fun vs => Ok (NTupleV vs None (tuple_co true))) = Ok vd) in Hd.
+      destruct (many_of (derive true) l) as [vs|e] eqn:El; cbn [pbind] in Hd; [|discriminate].
+      injection Hd as <-. cbn [step tuple_co] in Hr. apply ntuple_accept in Hr.
+      destruct Hr as [y [xs [ws [Hg [Hlen [Hit [HF Hobj]]]]]]].
+      unfold obj_stage in Hobj. injection Hobj as <-. unfold gate in Hg.
+      destruct (exact_type x TTuple) eqn:Ex; [|discriminate]. injection Hg as <-.
+      destruct (exact_tuple x Ex) as [xs' ->]. cbn in Hit. injection Hit as <-.
+      apply many_of_Forall2 in El. apply okstrict_children in Hp. cbn [has_type proper inst_ok] in *.
+      assert (Hxs : length xs' = length vs).
+      { cbn in Hlen. injection Hlen as Hlen. apply Z.eqb_eq in Hlen. unfold zlen in Hlen. lia. }
+      clear Hlen Ex.
+      enough (Hgo : (fix go (l : list ann) (xs : list pyval) : bool :=
+                       match l, xs with
+                       | [], [] => true
+                       | a1 :: lr, x1 :: xr => has_type a1 x1 && go lr xr
+                       | _, _ => false
+                       end) l xs' = true /\ (forallb proper xs' = true -> ws = xs')).
+      { destruct Hgo as [G1 G2]. split; [exact G1|]. intros Hp'. rewrite (G2 Hp'). reflexivity. }
+      revert xs' ws HF Hxs H Hp Hw.
+      induction El as [|a v0 l vs0 Ha El' IHl]; intros xs ws HF Hxs HI Hp Hw.
+      + destruct xs; [|discriminate]. inversion HF; subst. split; reflexivity.
+      + destruct xs as [|x0 xs]; [discriminate|]. cbn [combine] in HF. inversion HF as [|? w0 ? ws0 Hh HF']; subst.
+        cbn [forallb] in Hp, Hw. apply andb_prop in Hp. destruct Hp as [Hpa Hpl]. apply andb_prop in Hw. destruct Hw as [Hw0 Hwl].
+        inversion HI as [|? ? HIa HIl]; subst. unfold callr in Hh. cbn [fst snd] in Hh.
+        destruct (HIa Hpa v0 Ha n x0 w0 Hh Hw0) as [T1 P1].
+        destruct (IHl xs ws0 HF' ltac:(cbn in Hxs; lia) HIl Hpl Hwl) as [T2 P2].
+        rewrite T1, T2. split; [reflexivity|]. cbn [forallb]. intros Hq. apply andb_prop in Hq. destruct Hq as [Q1 Q2].
+        rewrite (P1 Q1), (P2 Q2). reflexivity.
+    - (* AUnion *)
+      destruct l as [|a0 l0]; [discriminate|].
+      change (pbind (many_of (derive true) (a0 :: l0)) (fun vs => Ok (UnionV vs)) = Ok vd) in Hd.
+      destruct (many_of (derive true) (a0 :: l0)) as [vs|e] eqn:El; cbn [pbind] in Hd; [|discriminate].
+      injection Hd as <-. cbn [step] in Hr. apply union_accept in Hr.
+      destruct Hr as [pre [v0 [post [Hvs [Hv0 _]]]]].
+      apply many_of_Forall2 in El. apply okstrict_children in Hp. cbn [has_type] in *.
+      assert (Hin : In v0 vs) by (rewrite Hvs; apply in_or_app; right; left; reflexivity).
+      clear Hvs. revert Hin Hp H. generalize dependent (a0 :: l0). intros l El.
+      induction El as [|a v1 l vs1 Ha El' IHl]; intros Hin Hp HI; [destruct Hin|].
+      cbn [forallb existsb] in *. apply andb_prop in Hp. destruct Hp as [Hpa Hpl].
+      inversion HI as [|? ? HIa HIl]; subst.
+      destruct Hin as [<-|Hin].
+      + destruct (HIa Hpa v1 Ha n x w Hv0 Hw) as [T P]. rewrite T. split; [reflexivity | exact P].
+      + destruct (IHl Hin Hpl HIl) as [T P]. rewrite T, orb_true_r. split; [reflexivity | exact P].
+    - (* AMaybe *) apply okstrict_children in Hp. destruct (derive true a) as [v'|e] eqn:Ea; cbn [pbind] in Hd; [|discriminate].
+      injection Hd as <-. cbn [step] in Hr. rewrite maybe_spec in Hr.
+      destruct x; try discriminate.
+      + destruct (run E Sync n v' x) as [w'| | | |] eqn:Ei; try discriminate. injection Hr as <-.
+        cbn [inst_ok] in Hw. destruct (IHa Hp v' eq_refl n x w' Ei Hw) as [T P]. cbn [has_type proper]. split; [exact T|].
+        intros Hq. rewrite (P Hq). reflexivity.
+      + injection Hr as <-. split; reflexivity.
+    - (* ALiteral *)
+      destruct (literal_sound E true vs vd (S n) x w Hd Hr) as [T ->]. split; [exact T | reflexivity].
+    - (* AAnnotated *) destruct v as [v0|]; [apply okstrict_children in Hp; destruct Hp | discriminate].
+    - (* AQual *) apply okstrict_children in Hp. cbn [has_type]. apply (IHa Hp vd Hd (S n) x w); [cbn [run]; exact Hr | exact Hw].
+    - (* AClass *) injection Hd as <-. cbn [step] in Hr. apply scalar_accept in Hr.
+      destruct Hr as [_ [y [Hg [Hpr _]]]]. cbn [procs_apply] in Hpr. injection Hpr as <-.
+      unfold gate in Hg. cbn [ktype] in Hg. destruct (exact_type x (TClass c)) eqn:Ex; [|discriminate].
+      injection Hg as <-. split; [exact Ex | reflexivity].
+  Qed.
+End StrictAll.
